@@ -176,6 +176,8 @@ def chaos(t, attach=None, force=None, allow_extra=True, pre=None) -> Ctx:
             w.push(at, ("fn", _mk_extra(kind, who, dur, extras)))
     w.max_events = 2500
     w.max_t = 90_000
+    if t.choose(3, "pacing") == 2:
+        w.pacing = "random"
     _start(ctx, attach)
     ctx.reason = w.run()
     ctx.info["fired"] = sum(w.link.fired.values()) + sum(extras.values())
@@ -301,6 +303,8 @@ def cancel(t, attach=None, force=None) -> Ctx:
         plan.append((after, side, wrong))
     trig = CancelTrigger(ctx, plan)
     ctx.info["trigger"] = trig
+    if t.choose(3, "pacing") == 2:
+        w.pacing = "random"
     w.max_events = 6000
     w.max_t = 200_000
     # in a quarter of the runs the handlers have already completed a transaction (not judged); wrong-id cancel
